@@ -27,7 +27,8 @@ def run(ix, rep, scope='anchored', rule='R-OWN'):
     """scope 'anchored': handlers/operations/entry points of the four standard monitors (+ IA overrides).
     Returns number of functions analysed."""
     helpers = helper_functions(ix)
-    sums = own.compute_summaries(ix, helpers, 'all')
+    # methods are summarised too: an entry point that hands the caller's data to `self.helper(data)` is judged by what that helper does
+    sums = own.compute_summaries(ix, helpers + all_semantic_methods(ix), 'all')
     n = 0
 
     def report(f, an, slot_prefix=''):
